@@ -53,7 +53,7 @@ def endpointOf (nfiles : Nat) (spec : String) : Option (Server Ã— Crypki.Reply Ã
       | "err" :: _ => some .fail
       | ["slow"] => some .fail
       | _ => none
-    pure (srv, reply, ident != "down", cmode == "request" || cmode == "require")
+    pure (srv, reply, ident != "down", cmode == "request" || cmode == "requesthint" || cmode == "require")
   | _ => none
 
 def handleCrypki (op : String) (args : List String) (impl : Option (List String)) : Option Drv.Reply :=
